@@ -258,7 +258,9 @@ type c14Case struct {
 
 // register writes that must not move, add or remove a VBlank/STAT request (LCDC values keep bit 7)
 var c14Writes = [][2]uint16{{0xff44, 0x00}, {0xff44, 0x90}, {0xff40, 0x80}, {0xff40, 0xff}, {0xff42, 0x55}, {0xff43, 0x55}, {0xff4a, 0x00}, {0xff4b, 0x07},
-	{0xff47, 0x1b}, {0xff48, 0x1b}, {0xff46, 0xc0}}
+	{0xff47, 0x1b}, {0xff48, 0x1b}, {0xff46, 0xc0},
+	{0xff45, 0x100}, // LYC rewritten with the value it already holds (LYC stays constant)
+	{0xff41, 0x100}} // STAT rewritten with the source selection it already holds
 
 var statBit = map[string]uint8{"none": 0, "hblank": 0x08, "vblank": 0x10, "oam": 0x20, "lyc": 0x40}
 
@@ -348,6 +350,12 @@ func c14Run(l *explore.Local, m *machine.M, lm *lineMon, c c14Case, t0 int) *exp
 	for t := t0; t < total; t++ {
 		if t == c.OffAt && c.Write != 0 {
 			w := c14Writes[c.Write-1]
+			if w[1] == 0x100 {
+				w[1] = uint16(c.LYC)
+				if w[0] == 0xff41 {
+					w[1] = uint16(statBit[c.Source])
+				}
+			}
 			m.Map.Write(w[0], uint8(w[1]))
 			if f := m.Map.Read(0xff0f) & 3; f != 0 {
 				return explore.Failf("interrupt requested by an unrelated register write", "source %s LYC=%d: IF=%02x right after %04x<-%02x at cycle %d", c.Source, c.LYC, f, w[0], w[1], c.OffAt)
@@ -517,7 +525,7 @@ func init() {
 	})
 	register("C14", "model_checking", func(c *Ctx) {
 		if c.R != nil {
-			c.R.Rule = "IF is read and cleared through the Mapper after every machine cycle, so the exact cycle of every VBlank/STAT request of the real PPU is observed and compared with the reference: VBlank exactly in the cycle LY becomes 144; STAT exactly at the rising edge of the single enabled source (mode 0 entry / LY becomes 144 / LY becomes n for n in 0..143 / LY becomes LYC); nothing while the LCD is off; each STAT source x LYC values x 3 frames, plus LCD off (1 and 300 cycles) and on again at every cycle of lines 0, 1, 143, 144, 153 (thorough: every cycle of a frame), each tried from a snapshot; and at every such cycle one write to each of 11 registers that have nothing to do with the requests (LY, LCDC keeping bit 7, scroll, window, palettes, DMA): nothing may be requested by the write and every following request must stay in place"
+			c.R.Rule = "IF is read and cleared through the Mapper after every machine cycle, so the exact cycle of every VBlank/STAT request of the real PPU is observed and compared with the reference: VBlank exactly in the cycle LY becomes 144; STAT exactly at the rising edge of the single enabled source (mode 0 entry / LY becomes 144 / LY becomes n for n in 0..143 / LY becomes LYC); nothing while the LCD is off; each STAT source x LYC values x 3 frames, plus LCD off (1 and 300 cycles) and on again at every cycle of lines 0, 1, 143, 144, 153 (thorough: every cycle of a frame), each tried from a snapshot; and at every such cycle one write to each of 13 registers that must not move a request (LY, LCDC keeping bit 7, scroll, window, palettes, DMA, LYC and STAT rewritten with the values they already hold): nothing may be requested by the write and every following request must stay in place"
 			c.R.Assumptions = []string{"OAM source at line 144, and whatever is requested in the cycle the LCD is switched on, are not judged", "several STAT sources at once (STAT blocking) are outside the statement"}
 		}
 		explore.Product(c.R, "requests", explore.PartOpt{Bound: "3 frames per configuration", Domain: "sources {none,hblank,vblank,oam,lyc} x LYC 0-153, 154, 200, 255 (lyc) / {0,144} (others), with empty OAM and with 10 / 40 objects on one line; off/on schedules; unrelated register writes"},
